@@ -11,7 +11,7 @@ THEOREM_MODULES = ["PygacModel.Theorems.C07"]
 RULE = ("passes whose line i carries quality bit (i mod 32) alone, then random / all-ones / three-bit-complement words; "
         "for each a twin with quality 0 and a twin differing only in the other 29 bits; products compared row by row "
         "(mask, 7-column summary, calibrated channels, lon/lat, 5 angles); passes with exactly one flagged line (first / last / "
-        "inner record); passes at the top of each line-number field's range "
+        "inner record); passes in which one scan-line number is stored twice and one copy is flagged; passes at the top of each line-number field's range "
         "(32762.., 65520.., 14980..). A case = (format, line); non-trivial = "
         "quality word != 0; distinct by (family, quality word)")
 
@@ -60,6 +60,10 @@ def quality_words(rng, n, fam, kind):
         for i in range(0, n, 7):
             q[i] |= np.uint64(1 << BITS[fam][(i // 7) % 3])
         return q
+    if kind.startswith("dup"):      # the scan-line number of record n//2 is stored twice; exactly one of the two copies is flagged
+        q = np.array([rng.getrandbits(32) & (~tb & 0xFFFF_FFFF) for _ in range(n)], dtype=np.uint64)
+        q[n // 2 + (1 if kind == "dup-second" else 0)] |= np.uint64(1 << rng.choice(BITS[fam]))
+        return q
     if kind.startswith("single"):   # exactly one flagged line in the whole pass: the first, the last or one in between
         q = np.array([rng.getrandbits(32) & (~tb & 0xFFFFFFFF) for _ in range(n)], dtype=np.uint64)
         i = {"single-first": 0, "single-last": n - 1}.get(kind, rng.randrange(1, n - 1))
@@ -75,7 +79,11 @@ def check_pass(ctx, fmt, n, kind, seed, interpolate, drv, n0=1):
     q = quality_words(rng, n, fam, kind)
 
     def build(qq):
-        pb = filegen.PassBuilder(ctx, fmt, n, random.Random(repr((seed, fmt, n))), n0=n0)
+        numbers = None
+        if kind.startswith("dup"):
+            d = n // 2
+            numbers = list(range(n0, n0 + d + 1)) + list(range(n0 + d, n0 + n - 1))
+        pb = filegen.PassBuilder(ctx, fmt, n, random.Random(repr((seed, fmt, n))), n0=n0, line_numbers=numbers)
         pb.quality = qq.astype(np.uint32)
         if fam == "klm":
             pb.bitfield[:] = np.array([0, 1, 0, 0, 1][: 5] * (n // 5 + 1))[:n]
@@ -138,7 +146,8 @@ def run(ctx):
             ("klmLac", 40, "walk", True), ("podLac", 40, "walk", False),
             ("klmGac", 60, "complement", True), ("podGac", 60, "complement", True)]
     for fmt in ("klmGac", "podGac") + (("klmLac", "podLac") if ctx.thorough else ()):
-        plan += [(fmt, 14, "single-first", True), (fmt, 14, "single-last", False), (fmt, 14, "single-mid", True)]
+        plan += [(fmt, 14, "single-first", True), (fmt, 14, "single-last", False), (fmt, 14, "single-mid", True),
+                 (fmt, 14, "dup-first", False), (fmt, 14, "dup-second", True)]
     if ctx.thorough:
         for k in range(60):
             plan += [("klmGac", 200, "random", bool(k % 2)), ("podGac", 200, "random", bool(k % 2)),
